@@ -90,13 +90,12 @@ RegsAgreeOf(p, i, c) ==
      LET var == Cases[c].physregs[r]
          pv == Pcode!BaseReg(p, var.n)
      IN IR!IsPoison(pv) \/ pv = IR!ReadVar(var, i.regs)
-\* the first base register that differs (for the report)
-FirstRegDiff(p, i, c) ==
-  LET d == {r \in 1..Len(Cases[c].physregs) :
-              LET var == Cases[c].physregs[r]
-                  pv == Pcode!BaseReg(p, var.n)
-              IN ~(IR!IsPoison(pv) \/ pv = IR!ReadVar(var, i.regs))}
-  IN IF d = {} THEN "" ELSE Cases[c].physregs[CHOOSE r \in d : \A q \in d : r <= q].n
+\* the base registers that differ (for the report)
+RegDiffs(p, i, c) ==
+  {Cases[c].physregs[r].n : r \in {r \in 1..Len(Cases[c].physregs) :
+                                     LET var == Cases[c].physregs[r]
+                                         pv == Pcode!BaseReg(p, var.n)
+                                     IN ~(IR!IsPoison(pv) \/ pv = IR!ReadVar(var, i.regs))}}
 
 \* what is compared of an observation
 Core(o) == [k |-> o.k, a |-> o.a, s |-> o.s, v |-> o.v, t |-> o.t]
@@ -163,7 +162,7 @@ Jumps == /\ ph = "run" /\ DefsDone
          /\ UNCHANGED <<cs, ini, pi, ii>>
 
 What == IF ~NoPanic THEN <<"panic">>
-        ELSE IF ~RegsAgree THEN <<"regs", FirstRegDiff(pm, im, cs)>>
+        ELSE IF ~RegsAgree THEN <<"regs", RegDiffs(pm, im, cs)>>
         ELSE IF ~ObsAgree THEN <<"obs">> ELSE <<>>
 
 \* (state predicates are written as `P = TRUE': TLC would otherwise split their inner disjunctions
